@@ -80,6 +80,7 @@ def Form (p : Params) (i : Nat) (v : Var) (tok : Tok) : Prop :=
 structure VarOK (p : Params) (c : Ctx) (M : State) (i : Nat) (v : Var) : Prop where
   out : v.out = p.out i
   curReg : v.cur.isReg = true
+  notStk : v.cur.isStack = false
   outReg : v.out.isReg = true
   outInit : v.outInit = true
   grp : groupOf v.cur.regType = groupOf v.out.regType
@@ -92,15 +93,28 @@ structure VarOK (p : Params) (c : Ctx) (M : State) (i : Nat) (v : Var) : Prop wh
         (v.done = false → hasSwap p.cfg.arch (groupOf v.cur.regType) = true → tok = initTok p.vis i)
   fresh : v.done = false → hasSwap p.cfg.arch (groupOf v.cur.regType) = true → v.cur = p.src i
 
+/-- a variable that still sits in its incoming stack slot (phase 3 loads it): never touched, token in source form -/
+structure StkOK (p : Params) (M : State) (i : Nat) (v : Var) : Prop where
+  out : v.out = p.out i
+  cur : v.cur = p.src i
+  isStk : v.cur.isStack = true
+  direct : v.cur.isIndirect = false
+  notDone : v.done = false
+  outReg : v.out.isReg = true
+  outInit : v.outInit = true
+  grpLt : groupOf v.out.regType < 4
+  outLt : v.out.regId < 32
+  tok : M.get (.argStack v.cur.stackOffset) = some (initTok p.vis i)
+
 structure WF (p : Params) (e : Emit) (M : State) : Prop where
   len : e.ctx.vars.length = p.n
   wdlen : e.ctx.wd.length = 4
   physlen : ∀ g, g < 4 → (e.ctx.w g).phys.length = 32
   runs : run p.vis p.f p.cfg.arch p.M0 e.out = some M
-  var : ∀ i, i < p.n → VarOK p e.ctx M i (e.ctx.var i)
+  var : ∀ i, i < p.n → (e.ctx.var i).cur.isReg = true → VarOK p e.ctx M i (e.ctx.var i)
+  stk : ∀ i, i < p.n → (e.ctx.var i).cur.isReg = false → StkOK p M i (e.ctx.var i)
   inv : ∀ g r j, g < 4 → r < 32 → physAt e.ctx g r = some j →
-    j < p.n ∧ groupOf (e.ctx.var j).cur.regType = g ∧ (e.ctx.var j).cur.regId = r
-  hss : e.ctx.hasStackSrc = false
+    j < p.n ∧ groupOf (e.ctx.var j).cur.regType = g ∧ (e.ctx.var j).cur.regId = r ∧ (e.ctx.var j).cur.isReg = true
 
 theorem moveTok_var (vis : List VarInfo) (t : Tok) (k : Ext) (c w : Nat) : (moveTok vis t k c w).var = t.var := by
   unfold moveTok; split <;> rfl
